@@ -5,7 +5,7 @@ CONSTANTS
   MaxPin = 2
   FixDealloc = TRUE
 SPECIFICATION Spec
-INVARIANTS ReplacerPinFree MappedRight NonResidentOnDisk
+INVARIANTS ReplacerPinFree MappedRight NonResidentOnDisk DirtyRight
 PROPERTIES Coherent PinSafe FreshId
 VIEW View
 CONSTRAINT Bound3
